@@ -226,6 +226,7 @@ pub fn cmd_replay(path: &str) -> i32 {
         "text" => crate::textfaults::replay(&file),
         "codec" => crate::textfaults::replay_codec(),
         "stack" => crate::stack::replay(&file),
+        "longgame" => crate::stack::replay_longgame(&file),
         other => Err(format!("unknown replay mode {}", other)),
     };
     match res {
